@@ -152,8 +152,9 @@ class TBRMatchedMarkets:
     if treatment_geos_range is None:
       n_geos_from, n_geos_to = (n_treatment_min, n_treatment_max)
     else:
-      n_geos_from = max(treatment_geos_range[0], n_treatment_min)
-      n_geos_to = min(treatment_geos_range[1], n_treatment_max)
+      # The bounds of the range are integer-valued, but may be given as floats.
+      n_geos_from = int(max(treatment_geos_range[0], n_treatment_min))
+      n_geos_to = int(min(treatment_geos_range[1], n_treatment_max))
 
     return range(n_geos_from, n_geos_to + 1)
 
@@ -175,8 +176,9 @@ class TBRMatchedMarkets:
     if control_geos_range is None:
       n_geos_from, n_geos_to = (n_control_min, n_control_max)
     else:
-      n_geos_from = max(control_geos_range[0], n_control_min)
-      n_geos_to = min(control_geos_range[1], n_control_max)
+      # The bounds of the range are integer-valued, but may be given as floats.
+      n_geos_from = int(max(control_geos_range[0], n_control_min))
+      n_geos_to = int(min(control_geos_range[1], n_control_max))
 
     if self.parameters.geo_ratio_tolerance is None:
       yield from range(n_geos_from, n_geos_to + 1)
